@@ -1,6 +1,7 @@
 (* C06 — property theorems (statements only; proofs by [exact] of lemmas in Proofs*.v). *)
 From Coq Require Import ZArith QArith List String.
-From OMV Require Import Base.Val C06.Model C06.GenUnitLib C06.Lib C06.Proofs C06.ProofsLib.
+From OMV Require Import Base.Val C06.Model C06.GenUnitLib C06.Lib
+     C06.Proofs C06.ProofsNames C06.ProofsFind C06.ProofsLib.
 Import ListNotations.
 Open Scope Q_scope.
 
@@ -34,7 +35,7 @@ Theorem C06_compat_decides_conversion : forall a b : unit,
 Proof. exact (fun a b => conj (compat_decides a b) (compat_convertible a b)). Qed.
 Print Assumptions C06_compat_decides_conversion.
 
-(* products: factors multiply, powers add; offset units are refused *)
+(* products: factors multiply, powers add; units with an offset are refused *)
 Theorem C06_mul_law : forall a b c : unit, u_mul a b = Ok c ->
   u_factor c == u_factor a * u_factor b /\ u_powers c = zipw Z.add (u_powers a) (u_powers b) /\
   u_offset c == 0 /\ u_offset a == 0 /\ u_offset b == 0.
@@ -53,6 +54,50 @@ Theorem C06_pow_law : forall (a : unit) (n : Z) (c : unit), u_pow a n = Ok c ->
 Proof. exact pow_law. Qed.
 Print Assumptions C06_pow_law.
 
+(* SI / IEC prefixes: the new table entry has the prefix factor times the base unit's factor, the
+   base unit's dimension, no offset; units with an offset cannot be prefixed; nothing else changes *)
+Theorem C06_prefix_factor : forall (t : table) (item : string) (pf : Q) (bu : unit) (t' : table),
+  tbl_get t item = None -> add_prefixed t item pf bu = Ok t' ->
+  (exists j u, tbl_get t' item = Some (j, u) /\ u_factor u == u_factor bu * pf /\
+               u_powers u = u_powers bu /\ u_offset u == 0 /\ u_names u = [(KU item, 1%Z)]) /\
+  u_offset bu == 0 /\
+  (forall s, s <> item -> tbl_get t' s = tbl_get t s).
+Proof. exact prefix_factor. Qed.
+Print Assumptions C06_prefix_factor.
+
+(* PARTIAL towards "simplify preserves the denotation": for every table whose entries are named by
+   table names carrying their factor (the shipped library is, see C06_library_wf), every unit that
+   evaluating an expression with non-zero literals produces has exactly the factor that its names
+   dictionary -- what name() prints -- denotes.  (The same statement for the powers, and the
+   evaluation of the printed name back to that product, are not proved: the repaired simplify_unit
+   checks them at run time, see C06_simplify_fixed_sound.) *)
+Theorem C06_eval_names_denote_factor_partial :
+  forall (pi : option Q) (t : table) (e : expr) (u : unit) (o : option nat),
+  table_named t -> (forall p, pi = Some p -> ~ p == 0) -> lits_nz e ->
+  eval pi t e = Ok (PUnit u o) ->
+  u_factor u == den_f (kf_of t) (u_names u).
+Proof. exact (fun pi t e u o Ht Hp Hl H => eval_vok pi t e (PUnit u o) Ht Hp Hl H). Qed.
+Print Assumptions C06_eval_names_denote_factor_partial.
+
+(* simplify_unit as repaired by props/C06/fix_1.diff returns the original string or a name that,
+   looked up again, is a unit of the same dimension, offset and factor *)
+Theorem C06_simplify_fixed_sound : forall pfx (t : table) (orig : string) (u : unit) (s : string),
+  simplify_fixed pfx t orig u = Some s ->
+  s = orig \/
+  exists u', fst (find_unit pfx t (name_expr u)) = FOk u' /\
+             u_powers u' = u_powers u /\ u_offset u' == u_offset u /\ u_factor u' == u_factor u.
+Proof. exact simplify_fixed_sound. Qed.
+Print Assumptions C06_simplify_fixed_sound.
+
+(* the present simplify_unit is refuted on the shipped library ('1000*s/s' -> '1000', not a unit) *)
+Theorem C06_simplify_present_refuted :
+  exists e u, (fst (find_unit (l_pfx lib) (l_tbl lib) e) = FOk u) /\
+              (simplify_str u = Some "1000"%string) /\
+              (fst (find_unit (l_pfx lib) (l_tbl lib) (name_expr u)) = FNone).
+Proof. exact simplify_present_refuted. Qed.
+Print Assumptions C06_simplify_present_refuted.
+
+(* the regenerated shipped library: loads, non-zero factors, one power per base unit, names bound *)
 Theorem C06_library_wf :
   load_library gen_pi gen_bases gen_defs = Ok (l_tbl lib) /\
   List.length (l_tbl lib) = (List.length gen_bases + List.length gen_defs)%nat /\
